@@ -40,7 +40,11 @@ def judge (payload impl : String) : Verdict :=
       let big := match (label.splitOn "=").getLast?.bind String.toInt? with
         | some v => v ≥ 1000000 || v < 0
         | none => false
-      let tags := if label.startsWith "h2-" && big then ["h2-frame-prealloc"] else []
+      -- the header list of one HTTP/2 block may expand to the library's default cut of 16 MB whatever the bytes seen
+      -- (recorded finding h2-hpack-expansion): the absolute bounds are excused on that shape, the growth rule is not
+      let bomb := (label.splitOn "hpack-repeat").length > 1
+      let tags := (if label.startsWith "h2-" && big then ["h2-frame-prealloc"] else []) ++
+        (if bomb && !crashed && growthOk then ["h2-hpack-expansion"] else [])
       { corr := true, implSpec := ok, modelSpec := true, tags, nontrivial := true,
         cls := (label.splitOn "=").headD "?",
         model := "-", spec := s!"no panic; alloc <= {allocBound n}; ms <= {msBound n}; per-byte allocation at most twice that of the smaller run" }
